@@ -896,8 +896,14 @@ func (fr *Frame) enterLoop(h *ssa.BasicBlock, in *State) *State {
 	cur := in.clone()
 	locals, ws := fr.loopWrites(h)
 	for a := range locals {
-		if _, ok := cur.locals[a]; ok {
-			cur.locals[a] = vc.havocVal(cur, a.Type().(*types.Pointer).Elem(), "lh$"+a.Comment)
+		if old, ok := cur.locals[a]; ok {
+			nv := vc.havocVal(cur, a.Type().(*types.Pointer).Elem(), "lh$"+a.Comment)
+			cur.locals[a] = nv
+			// auto invariant for monotone counters: every store in the loop is `a = a + positive constant`
+			if ov, ok := old.(*VS); ok && ov.T.Sort == SInt && fr.monotoneCounter(h, a) {
+				vc.assume(cur, mkAnd(mkCmp(">=", nv.(*VS).T, ov.T), mkCmp("<=", nv.(*VS).T, mkBig(pow2(62)))))
+				vc.note("monotone loop counters are assumed not to overflow")
+			}
 		}
 	}
 	vc.havocWriteSet(cur, ws)
@@ -987,4 +993,31 @@ func (fr *Frame) closeLoop(h, from *ssa.BasicBlock, st *State, cond *Term) {
 	for phi, v := range saved {
 		fr.regs[phi] = v
 	}
+}
+
+// monotoneCounter: all stores to local alloc a inside loop h have the form a = a + c with constant c > 0.
+func (fr *Frame) monotoneCounter(h *ssa.BasicBlock, a *ssa.Alloc) bool {
+	n := 0
+	for b := range fr.loops.body[h] {
+		for _, in := range b.Instrs {
+			st, ok := in.(*ssa.Store)
+			if !ok || st.Addr != ssa.Value(a) {
+				continue
+			}
+			n++
+			bo, ok := st.Val.(*ssa.BinOp)
+			if !ok || bo.Op != token.ADD {
+				return false
+			}
+			ld, ok := bo.X.(*ssa.UnOp)
+			if !ok || ld.Op != token.MUL || ld.X != ssa.Value(a) {
+				return false
+			}
+			c, ok := bo.Y.(*ssa.Const)
+			if !ok || c.Value == nil || constant.Sign(c.Value) <= 0 {
+				return false
+			}
+		}
+	}
+	return n > 0
 }
